@@ -115,7 +115,8 @@ Definition act_tablespace (args : list pyval) : res pyval :=
              end);
     let name := last_val args in
     match name with
-    | PDict _ => Unsupported "tablespace properties"
+    | PDict props =>
+        Ok (PDict [("tablespace_name", nth (List.length args - 2) args PNone); ("properties", PDict props); ("type", ty); ("temporary", PBool temp)])
     | _ => Ok (PDict [("tablespace_name", name); ("properties", PNone); ("type", ty); ("temporary", PBool temp)])
     end
   | _ => Raise IndexError
@@ -198,20 +199,62 @@ Definition size_int (s : string) : res pyval :=
 
 Definition colname_bad (name : string) : bool := String.eqb name "KEY" || String.eqb name ".".
 (* p_column *)
+(* process_type_to_column_data on a type that mentions IDENTITY: the first word is the type, the column gets identity = None *)
+Definition column_identity (name ty : string) : res pyval :=
+  match words ty with
+  | w :: _ :: _ => Ok (PDict [("name", PStr name); ("type", PStr w); ("size", PNone); ("identity", PNone)])
+  | _ => Unsupported "column: a type that is the single word IDENTITY"
+  end.
 Definition act_column (args : list pyval) : res pyval :=
   match args with
   | [PStr name; PDict ct] =>
       if colname_bad name then Unsupported "column: KEY / dot as name"
       else match ct with
-           | [("type", PStr ty)] => Ok (PDict [("name", PStr name); ("type", PStr ty); ("size", PNone)])
-           | _ => Unsupported "column: c_type with properties"
+           | [("type", PStr ty)] =>
+               if contains (upper ty) "IDENTITY" then column_identity name ty
+               else Ok (PDict [("name", PStr name); ("type", PStr ty); ("size", PNone)])
+           | _ =>
+             (* process_type_to_column_data, len(p_list) <= 3: the type string, then the c_type's properties copied key by key *)
+             match dict_get ct "type" with
+             | Some (PStr ty) =>
+                 if contains (upper ty) "IDENTITY" then column_identity name ty
+                 else
+                   let base := [("name", PStr name); ("type", PStr ty); ("size", PNone)] in
+                   match dict_get ct "property" with
+                   | Some (PDict props) => Ok (PDict (dict_update base props))
+                   | Some _ => Unsupported "column: c_type property is not a dict"
+                   | None => Ok (PDict base)
+                   end
+             | _ => Unsupported "column: c_type without a string type"
+             end
            end
-  | [PDict col; PStr "("; PStr n; PStr ")"] =>
-      if dict_has col "index_stmt" || dict_has col "identity" then Unsupported "column: index / identity"
-      else do z <- size_int n; Ok (PDict (dict_set col "size" z))
-  | [PDict col; PStr "("; PStr p; PStr ","; PStr sc; PStr ")"] =>
-      if dict_has col "index_stmt" || dict_has col "identity" then Unsupported "column: index / identity"
-      else do a <- size_int p; do b <- size_int sc; Ok (PDict (dict_set col "size" (PTuple [a; b])))
+  | [PDict col; PStr lp; PStr n; PStr rp] =>
+      if negb (String.eqb lp "(" && String.eqb rp ")") then Unsupported "column form"
+      else if dict_has col "index_stmt" then Unsupported "column: index"
+      else if isnumeric n then (do z <- size_int n; Ok (PDict (dict_set col (if dict_has col "identity" then "identity" else "size") z)))
+      else if starts_with_digit n || String.eqb n "max"          (* set_column_size: a leading digit or the word max; get_size keeps the word *)
+           then Ok (PDict (dict_set col (if dict_has col "identity" then "identity" else "size") (PStr n)))
+           else Ok (PDict col)
+  | [PDict col; PStr lp; PStr n; PStr w; PStr rp] =>
+      (* process_oracle_type_size: ( 30 CHAR ) is the one size word "30 CHAR" *)
+      if negb (String.eqb lp "(" && String.eqb rp ")") then Unsupported "column form"
+      else if dict_has col "index_stmt" then Unsupported "column: index"
+      else let m := n ++ " " ++ w in
+           if starts_with_digit m then Ok (PDict (dict_set col (if dict_has col "identity" then "identity" else "size") (PStr m)))
+           else Ok (PDict col)
+  | [PDict col; PStr lp; PStr p; PStr cm; PStr sc; PStr rp] =>
+      if negb (String.eqb lp "(" && String.eqb cm "," && String.eqb rp ")") then Unsupported "column form"
+      else if dict_has col "index_stmt" then Unsupported "column: index"
+      else if isnumeric p then
+        (do a <- size_int p; do b <- size_int sc;
+         Ok (PDict (dict_set col (if dict_has col "identity" then "identity" else "size") (PTuple [a; b]))))
+      else
+        (* Oracle NUMBER with a star as precision; Geometry(MultiPolygon, 26918): a first parameter that is no number goes to type_parameters *)
+        if negb (isnumeric sc) then Unsupported "column: second size word is not a digit string"
+        else do b <- size_int sc;
+             if String.eqb p "*" then Ok (PDict (dict_set col (if dict_has col "identity" then "identity" else "size") (PTuple [PStr p; b])))
+             else if String.eqb (strip p) "*" || starts_with_digit p then Unsupported "column: odd first size word"
+             else Ok (PDict (dict_set col "type_parameters" (PTuple [PStr p; b])))
   | _ => Unsupported "column form"
   end.
 
@@ -249,6 +292,102 @@ Definition truthy_a (v : pyval) : bool :=
   end.
 Definition tr (d : adict) (k : string) : bool := match dict_get d k with Some v => truthy_a v | None => false end.
 
+(* ---------- p_c_type in general (all alternatives), p_tid ------------------------------------------------------------------------------ *)
+Definition not_par (v : pyval) : bool := match v with PStr s => negb (String.eqb s "(" || String.eqb s ")") | _ => true end.
+Fixpoint all_strs (l : list pyval) : option (list string) :=
+  match l with
+  | [] => Some []
+  | PStr s :: r => match all_strs r with Some ss => Some (s :: ss) | None => None end
+  | _ => None
+  end.
+Fixpoint fold_res {A B} (f : A -> B -> res A) (l : list B) (a : A) : res A :=
+  match l with [] => Ok a | b :: r => do a' <- f a b; fold_res f r a' end.
+(* Column.parse_complex_type: one element of p_list *)
+Definition complex_elem (acc : string) (e : pyval) : res string :=
+  match e with
+  | PList l => match all_strs l with
+               | Some ss => Ok (fold_left (fun a x => a ++ " " ++ rstrip x) ss acc)
+               | None => Unsupported "complex type: list with a non-string element"
+               end
+  | PStr s => Ok (if contains s "ARRAY" && negb (String.eqb s "ARRAY") then acc ++ s else acc ++ " " ++ s)
+  | _ => Unsupported "complex type: element"
+  end.
+Definition parse_complex_type (pl : list pyval) : res string :=
+  match pl with
+  | PDict d :: rest => match dict_get d "type" with
+                       | Some (PStr t) => fold_res complex_elem rest t
+                       | _ => Unsupported "complex type: c_type without a string type"
+                       end
+  | _ => fold_res complex_elem pl ""
+  end.
+(* `"[" in p_list[-1]`: substring of a str, element of a list, key of a dict *)
+Definition has_bracket (last : pyval) : bool :=
+  match last with
+  | PStr s => contains s "["
+  | PList l | PTuple l => existsb (fun v => match v with PStr x => String.eqb x "[" | _ => false end) l
+  | PDict d => dict_has d "["
+  | _ => false
+  end.
+Definition process_array_types (ty : string) (last : pyval) : string :=
+  if negb (contains ty "<") && contains ty "ARRAY" then
+    if negb (has_bracket last) then replace (replace ty " ARRAY" "[]") "ARRAY" "[]" else replace ty "ARRAY" ""
+  else if contains ty "<" && contains ty "[]" then replace ty "[]" "ARRAY"
+  else ty.
+(* Column.process_type; returns the (possibly replaced) p[0] and the type string *)
+Definition process_type (p0 : list (string * pyval)) (ty : pyval) (last : pyval) : res (list (string * pyval) * string) :=
+  do '(p0', t) <-
+     match ty with
+     | PList (PStr t0 :: _) => Ok (p0, t0)
+     | PList _ => Unsupported "process_type: list type without a leading string"
+     | PStr t0 =>
+         match last with
+         | PStr l => if String.eqb (lower l) "distkey"
+                     then Ok ([("property", PDict [("distkey", PBool true)])], hd "" (split t0 "distkey"))
+                     else Ok (p0, t0)
+         | _ => Ok (p0, t0)
+         end
+     | _ => Unsupported "process_type: type value"
+     end;
+  Ok (p0', process_array_types (replace (strip t) " . " ".") last).
+Definition act_c_type_gen (args : list pyval) : res pyval :=
+  let pl := filter not_par args in
+  match pl with
+  | [] => Raise IndexError
+  | first :: _ =>
+    let lastv := List.last pl PNone in
+    let is_es := match first with PStr s => String.eqb s "ENUM" || String.eqb s "SET" | _ => false end in
+    do '(p0, ty) <-
+       (if is_es then Ok ([("property", PDict [("values", lastv)])], Some first)
+        else if Nat.eqb (List.length pl) 1 then Ok ([], Some lastv)
+        else match hd PNone args with
+             | PStr s => if String.eqb (lower s) "encode" then Ok ([("property", PDict [("encode", nth 1 args PNone)])], None)
+                         else (do t <- parse_complex_type pl; Ok ([], Some (PStr t)))
+             | _ => do t <- parse_complex_type pl; Ok ([], Some (PStr t))
+             end);
+    match ty with
+    | Some v => if truthy_a v then (do '(p0', t) <- process_type p0 v lastv;
+                                    Ok (PDict (dict_set p0' "type" (PStr t))))
+                else Ok (PDict (dict_set p0 "type" v))
+    | None => Ok (PDict (dict_set p0 "type" PNone))
+    end
+  end.
+(* p_tid *)
+Definition act_tid (args : list pyval) : res pyval :=
+  match args with
+  | first :: rest =>
+    match all_strs rest with
+    | None => Unsupported "tid: non-string item"
+    | Some ss =>
+      let add (a i : string) := if String.eqb i "[]" || String.eqb i "," then a ++ i else a ++ " " ++ i in
+      match first with
+      | PStr s => Ok (PList [PStr (fold_left add ss s)])
+      | PList (PStr s :: more) => Ok (PList (PStr (fold_left add ss s) :: more))
+      | _ => Unsupported "tid form"
+      end
+    end
+  | [] => Unsupported "tid form"
+  end.
+
 (* p_defcolumn; args = p[1..] *)
 Definition act_defcolumn (args : list pyval) : res pyval :=
   match args with
@@ -256,9 +395,18 @@ Definition act_defcolumn (args : list pyval) : res pyval :=
       (* defcolumn -> column : set_property updates the dict with itself *)
       if tr col "check" || tr col "encode" || dict_has col "index_stmt" then Unsupported "defcolumn: check/encode/index"
       else Ok (PDict (defcol_finish col false false false PNone))
-  | [PDict d; PDict item] =>
-      if tr d "check" || tr d "encode" || dict_has item "property" || tr item "encode" || tr item "check"
-      then Unsupported "defcolumn: property/encode/check item"
+  | [PDict d0; PDict item0] =>
+      (* set_property: the entries of item["property"] are copied into the column, the key is deleted, the rest updates the column *)
+      do '(d, item) <-
+         match dict_get item0 "property" with
+         | Some (PDict props) =>
+             if existsb (fun kv => String.eqb (fst kv) "SET") props then Unsupported "defcolumn: CHARACTER SET property"
+             else Ok (dict_update d0 props, adel item0 "property")
+         | Some _ => Unsupported "defcolumn: property is not a dict"
+         | None => Ok (d0, item0)
+         end;
+      if tr d "check" || tr item "check"
+      then Unsupported "defcolumn: check item"
       else
         match dict_get item "references" with
         | Some (PDict r) =>
@@ -624,6 +772,12 @@ Definition act_expr_table_item (args : list pyval) : res pyval :=
           | Some cols => do t2 <- set_constraint (dict_update t item) "primary_keys" [("columns", cols)] name; Ok (PDict t2)
           | None => Raise KeyError
           end
+        else if dict_has item "primary_key" && dict_has item "clustered_primary_key" && Nat.eqb (List.length item) 2 then
+          (* CONSTRAINT n PRIMARY KEY CLUSTERED (...): both keys update the table, the constraint records the key columns *)
+          match dict_get item "primary_key" with
+          | Some cols => do t2 <- set_constraint (dict_update t item) "primary_keys" [("columns", cols)] name; Ok (PDict t2)
+          | None => Raise KeyError
+          end
         else Unsupported "expr COMMA constraint item"
       end
   | [PDict t; PStr ","; PList cols; PDict refd] =>
@@ -824,6 +978,214 @@ Definition act_type_definition_pid (args : list pyval) : res pyval :=
   | _ => Unsupported "type_definition form"
   end.
 
+
+(* ---------- batch 3: OPTIONS (...), key = value lists, Hive clauses, generated columns ---------------------------------------------------- *)
+Definition is_list_v (v : pyval) : bool := match v with PList _ => true | _ => false end.
+Definition str_is (v : pyval) (s : string) : bool := match v with PStr x => String.eqb x s | _ => false end.
+(* p_id_equals *)
+Definition act_id_equals (args : list pyval) : res pyval :=
+  match args with
+  | PStr k :: _ =>
+    let lastv := List.last args PNone in
+    if negb (str_is lastv ")" || str_is lastv "]") then Ok (PDict [(k, lastv)])
+    else if Nat.ltb 5 (List.length args) && is_list_v (nth 4 args PNone) then Ok (PDict [(k, nth 4 args PNone)])
+    else let pen := nth (List.length args - 2) args PNone in
+         if negb (str_is pen "(") then Ok (PDict [(k, pen)]) else Ok (PDict [(k, PStr "()")])
+  | _ => Unsupported "id_equals: key is not a string"
+  end.
+(* p_multi_id_equals *)
+Definition act_multi_id_equals (args : list pyval) : res pyval :=
+  do d <- fold_res (fun (acc : list (string * pyval)) (it : pyval) =>
+                      if str_is it "," then Ok acc
+                      else match it with PDict d => Ok (dict_update acc d) | _ => Unsupported "multi_id_equals: item is not a dict" end)
+                   args [];
+  Ok (PDict d).
+(* BigQuery.p_options / p_multiple_options *)
+Definition act_options (args : list pyval) : res pyval :=
+  match args with
+  | [PStr _; _; PDict d; _] => Ok (PDict [("options", PList (map (fun kv => PDict [kv]) d))])
+  | _ => Unsupported "options form"
+  end.
+Definition act_multiple_options (args : list pyval) : res pyval :=
+  match args with
+  | [PDict a] => Ok (PDict a)
+  | [PDict a; PDict b] =>
+      match dict_get a "options", dict_get b "options" with
+      | Some (PList x), Some (PList y) => Ok (PDict (dict_set a "options" (PList (x ++ y)%list)))
+      | _, _ => Unsupported "multiple_options: options lists"
+      end
+  | _ => Unsupported "multiple_options form"
+  end.
+(* p_multi_id_statement: " ".join(p_list[1:]) *)
+Definition act_multi_id_statement (args : list pyval) : res pyval :=
+  match all_strs args with
+  | Some ss => Ok (PStr (join " " ss))
+  | None => Unsupported "multi_id_statement: non-string item"
+  end.
+(* HQL.p_pid_with_type *)
+Definition act_pid_with_type (args : list pyval) : res pyval :=
+  match filter not_par args with
+  | [PList l] => Ok (PList l)
+  | [PList l; _; c] => Ok (PList (l ++ [c])%list)
+  | [PList l; c] => Ok (PList (l ++ [c])%list)
+  | [c] => Ok (PList [c])
+  | _ => Unsupported "pid_with_type form"
+  end.
+(* p_generated / p_gen_always *)
+Definition act_generated (args : list pyval) : res pyval :=
+  match args with
+  | _ :: second :: _ =>
+    let n := List.length args in
+    let stored := match List.last args PNone with
+                  | PStr l => Nat.ltb 2 n && String.eqb (lower l) "stored"
+                  | _ => false end in
+    (* `p_list[-1].lower()` on a non-string raises; the forms reaching here end in a string or have exactly two items *)
+    match List.last args PNone with
+    | PStr _ => Ok (PDict [("generated", PDict [("always", PBool true); ("as", second); ("stored", PBool stored)])])
+    | _ => if Nat.ltb 2 n then Raise AttributeError
+           else Ok (PDict [("generated", PDict [("always", PBool true); ("as", second); ("stored", PBool false)])])
+    end
+  | _ => Unsupported "generated form"
+  end.
+(* p_pkey with the ID alternative (CLUSTERED / NONCLUSTERED) *)
+Definition act_pkey_id (args : list pyval) : res pyval :=
+  match filter not_par args with
+  | [PDict _; PStr w; PList l] =>
+      match all_strs l with
+      | None => Raise AttributeError
+      | Some ss =>
+        let keyv := ("primary_key", PList (filter (fun v => negb (is_sort_word v)) l)) in
+        if String.eqb w "CLUSTERED" then
+          let step (st : option string * option string * list pyval) (item : string) :=
+              let '(column, order, acc) := st in
+              let '(column, order) := if negb (String.eqb (upper item) "ASC" || String.eqb (upper item) "DESC")
+                                      then (Some item, order) else (column, Some (upper item)) in
+              match column, order with
+              | Some c, Some o => if negb (String.eqb c "") && negb (String.eqb o "")
+                                  then (None, None, (acc ++ [PDict [("column", PStr c); ("order", PStr o)]])%list)
+                                  else (column, order, acc)
+              | _, _ => (column, order, acc)
+              end in
+          let '(_, _, cols) := fold_left step ss (None, None, []) in
+          Ok (PDict [("clustered_primary_key", PList cols); keyv])
+        else Ok (PDict [keyv])
+      end
+  | _ => Unsupported "pkey ID form"
+  end.
+
+
+(* ---------- CHECK: p_check_st, p_check_ex, the check of a column (p_defcolumn) and of a table (extract_check_data) ------------------------ *)
+Fixpoint check_items (fuel : nat) (items : list pyval) (acc : list pyval) : res (list pyval) :=
+  match fuel with
+  | O => Ok acc
+  | S f =>
+    match items with
+    | [] => Ok acc
+    | it :: rest =>
+      let dotted := match rest with nxt :: _ => str_is nxt "." | [] => false end in
+      if dotted then
+        match all_strs (firstn 3 items) with
+        | Some ss => check_items f (skipn 3 items) (acc ++ [PStr (join "" ss)])%list
+        | None => Raise TypeError
+        end
+      else
+        match it with
+        | PList l => match all_strs l with
+                     | Some ss => check_items f rest (acc ++ [PStr ("(" ++ join "," ss ++ ")")])%list
+                     | None => Raise TypeError end
+        | _ => check_items f rest (acc ++ [it])%list
+        end
+    end
+  end.
+Definition act_check_st (args : list pyval) : res pyval :=
+  let pl := filter not_par args in
+  match pl with
+  | first :: items =>
+    do _ <- match List.last pl PNone with
+            | PDict lastd => if tr lastd "args" then Unsupported "check_st: function arguments" else Ok tt
+            | _ => Ok tt
+            end;
+    match first with
+    | PDict d =>
+        match dict_get d "check" with
+        | Some (PList old) => do l <- check_items (S (List.length items)) items old; Ok (PDict (dict_set d "check" (PList l)))
+        | _ => Raise KeyError
+        end
+    | _ => do l <- check_items (S (List.length items)) items []; Ok (PDict [("check", PList l)])
+    end
+  | [] => Raise IndexError
+  end.
+Definition act_check_ex (args : list pyval) : res pyval :=
+  match args with
+  | [PDict c] => if dict_has c "constraint" then Raise IndexError
+                 else if dict_has c "check" then Ok (PDict c) else Unsupported "check_ex: neither constraint nor check"
+  | [PDict c; PDict st] =>
+      if dict_has c "constraint" then
+        match constraint_name_of (PDict c), dict_get st "check" with
+        | Some name, Some (PList (first :: more)) =>
+            let in_first := match first with PStr x => contains x "in_statement" | PDict d => dict_has d "in_statement" | _ => false end in
+            if in_first then Ok (PDict [("check", PDict [("constraint_name", name); ("statement", first)])])
+            else match all_strs (first :: more) with
+                 | Some ss => Ok (PDict [("check", PDict [("constraint_name", name); ("statement", PStr (join " " ss))])])
+                 | None => Raise TypeError
+                 end
+        | _, _ => Unsupported "check_ex: constraint check form"
+        end
+      else Unsupported "check_ex: two items without a constraint"
+  | _ => Unsupported "check_ex form"
+  end.
+(* Column.set_check_in_columm (after fix 4e5a0b6: a string is one item) *)
+Definition check_text (l : list pyval) : res string :=
+  do r <- fold_res (fun (st : nat * string) (it : pyval) =>
+              let '(n, acc) := st in
+              match it with
+              | PList xs => match all_strs xs with Some ss => Ok (S n, acc ++ " (" ++ join ", " ss ++ ")") | None => Raise TypeError end
+              | PStr x => Ok (S n, if Nat.eqb n 0 then acc ++ x else acc ++ " " ++ x)
+              | PDict ((k, PStr v) :: _) => let x := k ++ " = " ++ v in Ok (S n, if Nat.eqb n 0 then acc ++ x else acc ++ " " ++ x)
+              | _ => Unsupported "check item"
+              end) l (0, "");
+  Ok (snd r).
+Definition check_post (d : adict) : res adict :=
+  match dict_get d "check" with
+  | Some c =>
+      if truthy_a c then
+        match c with
+        | PDict _ => Ok d
+        | PStr _ => Ok d
+        | PList (PDict x :: rest) => if tr x "in_statement" then Ok d else (do s <- check_text (PDict x :: rest); Ok (dict_set d "check" (PStr s)))
+        | PList l => do s <- check_text l; Ok (dict_set d "check" (PStr s))
+        | _ => Unsupported "column check value"
+        end
+      else Ok d
+  | None => Ok d
+  end.
+(* Table: extract_check_data for `expr COMMA check_ex` *)
+Definition act_expr_check (args : list pyval) : res pyval :=
+  match args with
+  | [PDict t; _; PDict item] =>
+      match dict_get item "check" with
+      | Some (PList l) =>
+          match all_strs l with
+          | Some ss =>
+              let chk := PDict [("constraint_name", PNone); ("statement", PStr (join " " ss))] in
+              let old := if tr t "checks" then match dict_get t "checks" with Some (PList o) => o | _ => [] end else [] in
+              Ok (PDict (dict_set t "checks" (PList (old ++ [chk])%list)))
+          | None => Raise TypeError
+          end
+      | Some (PDict c) =>
+          match dict_get c "constraint_name" with
+          | Some name =>
+              do t2 <- set_constraint t "checks" c name;
+              let chk := PDict (dict_set c "constraint_name" name) in
+              let old := if tr t2 "checks" then match dict_get t2 "checks" with Some (PList o) => o | _ => [] end else [] in
+              Ok (PDict (dict_set t2 "checks" (PList (old ++ [chk])%list)))
+          | None => Raise KeyError
+          end
+      | _ => Unsupported "table check form"
+      end
+  | _ => Unsupported "expr COMMA check_ex form"
+  end.
+
 Definition action_more (norm : bool) (prod : string) (args : list pyval) : res pyval :=
   match words prod with
   | lhs :: _ :: _ =>
@@ -892,7 +1254,9 @@ Definition action_more (norm : bool) (prod : string) (args : list pyval) : res p
     else if String.eqb prod "collate -> COLLATE id" || String.eqb prod "collate -> COLLATE STRING" then
       match args with [_; v] => Ok (PDict [("collate", v)]) | _ => Unsupported "collate form" end
     else if String.eqb prod "defcolumn -> defcolumn comment" || String.eqb prod "defcolumn -> defcolumn autoincrement"
-            || String.eqb prod "defcolumn -> defcolumn collate" then act_defcolumn args
+            || String.eqb prod "defcolumn -> defcolumn collate" || String.eqb prod "defcolumn -> defcolumn options"
+            || String.eqb prod "defcolumn -> defcolumn encode" || String.eqb prod "defcolumn -> defcolumn generated"
+            || String.eqb prod "defcolumn -> defcolumn as_virtual" || String.eqb prod "defcolumn -> defcolumn c_property" then act_defcolumn args
     else if String.eqb prod "column -> column comment" then
       match args with
       | [PDict col; PDict c] =>
@@ -940,6 +1304,243 @@ Definition action_more (norm : bool) (prod : string) (args : list pyval) : res p
     else if String.eqb prod "type_definition -> type_name id LP pid RP" then act_type_definition_pid args
     else if String.eqb prod "expr -> type_definition" then
       match args with [PDict d] => Ok (PDict d) | _ => Unsupported "unit production on a non-dict" end
+    else if String.eqb lhs "id_equals" then act_id_equals args
+    else if String.eqb lhs "multi_id_equals" then act_multi_id_equals args
+    else if String.eqb lhs "options" then act_options args
+    else if String.eqb lhs "multiple_options" then act_multiple_options args
+    else if String.eqb prod "expr -> expr multiple_options" then
+      match args with [PDict t; PDict o] => Ok (PDict (dict_update t o)) | _ => Unsupported "expr options form" end
+    else if String.eqb prod "multi_id_statement -> id_or_string id_or_string" || String.eqb prod "multi_id_statement -> multi_id_statement id_or_string"
+            || String.eqb prod "multi_id_statement -> multi_id_statement EQ id_or_string" then act_multi_id_statement args
+    else if String.eqb lhs "pid_with_type" then act_pid_with_type args
+    else if String.eqb prod "expr -> expr PARTITIONED BY pid_with_type" || String.eqb prod "expr -> expr PARTITIONED BY LP pid RP" then
+      match args with PDict t :: _ => Ok (PDict (dict_set t "partitioned_by" (List.last (filter not_par args) PNone))) | _ => Unsupported "partitioned by form" end
+    else if String.eqb lhs "row_format" then Ok (PDict [("serde", PBool (str_is (List.last args PNone) "SERDE"))])
+    else if String.eqb prod "expr -> expr row_format id" || String.eqb prod "expr -> expr row_format STRING" then
+      match args with
+      | [PDict t; PDict rf; PStr v] =>
+          (match dict_get rf "serde" with
+           | Some (PBool true) => Ok (PDict (dict_set t "row_format" (PDict [("serde", PBool true); ("java_class", PStr v)])))
+           | Some (PBool false) => Ok (PDict (dict_set t "row_format" (PStr (check_spec v))))
+           | _ => Unsupported "row format: serde flag" end)
+      | _ => Unsupported "row format form" end
+    else if String.eqb lhs "property" then
+      match args with [PStr k; v] => Ok (PDict [(k, v)]) | _ => Unsupported "property form" end
+    else if String.eqb lhs "properties" then
+      match args with [PDict a] => Ok (PDict a) | [PDict a; PDict b] => Ok (PDict (dict_update a b)) | _ => Unsupported "properties form" end
+    else if String.eqb lhs "gen_always" then Ok (PDict [("generated", PDict [("always", PBool true)])])
+    else if String.eqb lhs "generated" then act_generated args
+    else if String.eqb prod "pkey -> pkey_statement ID LP pid RP" then act_pkey_id args
+    else if String.eqb prod "foreign -> FOREIGN KEY" then Ok PNone
+    else if String.eqb prod "encode -> ENCODE id" then
+      match args with [_; v] => Ok (PDict [("encode", v)]) | _ => Unsupported "encode form" end
+    else if String.eqb prod "STRING -> STRING STRING_BASE" then act_string args
+    else if String.eqb prod "expr -> alter_check" then act_expr_alter args
+    else if String.eqb lhs "period_for" then
+      match args with [_; _; _; _; v; _] => Ok (PDict [("period_for_system_time", v)]) | _ => Unsupported "period_for form" end
+    else if String.eqb prod "expr -> expr COMMA period_for" then
+      match args with [PDict t; _; PDict pf] => Ok (PDict (dict_update t pf)) | _ => Unsupported "expr period_for form" end
+    else if String.eqb prod "column -> column LP id id RP" then act_column args
+    else if String.eqb lhs "equals" then
+      match args with
+      | [n; _; v] => Ok (PDict [("name", n); ("value", v)])
+      | _ => Unsupported "equals form" end
+    else if String.eqb lhs "with_args" then
+      match args with
+      | [first; second] =>
+          let d := match first with PDict d => d | _ => [("properties", PList [])] end in
+          if str_is second ")" then Ok (PDict d)
+          else match dict_get d "properties" with
+               | Some (PList l) => Ok (PDict (dict_set d "properties" (PList (l ++ [second])%list)))
+               | _ => Raise KeyError end
+      | [PDict d; second; third] =>
+          if str_is second ")" then Ok (PDict d)
+          else match dict_get d "properties" with
+               | Some (PList l) => Ok (PDict (dict_set d "properties" (PList (l ++ [third])%list)))
+               | _ => Raise KeyError end
+      | _ => Unsupported "with_args form" end
+    else if String.eqb prod "with -> WITH with_args" then
+      match args with
+      | [_; PDict wa] => match dict_get wa "properties" with
+                         | Some pr => Ok (PDict [("with", PDict [("properties", pr); ("on", PNone)])])
+                         | None => Raise KeyError end
+      | _ => Unsupported "with form" end
+    else if String.eqb prod "expr -> expr with" then
+      match args with [PDict t; PDict w] => Ok (PDict (dict_update t w)) | _ => Unsupported "expr with form" end
+    else if String.eqb prod "expr -> expr ON id" then
+      match args with [PDict t; _; v] => Ok (PDict (dict_set t "on" v)) | _ => Unsupported "expr on form" end
+    else if String.eqb prod "expr -> expr TEXTIMAGE_ON id" then
+      match args with [PDict t; _; v] => Ok (PDict (dict_set t "textimage_on" v)) | _ => Unsupported "textimage form" end
+    else if String.eqb prod "alter_check -> alt_table ADD check_ex" then
+      match args with
+      | [PDict a; _; PDict cx] =>
+          if tr a "check" then Unsupported "alter_check: a second check"
+          else match dict_get cx "check" with
+               | Some (PDict c) => if dict_has c "constraint_name" then Ok (PDict (dict_set a "check" (PDict c)))
+                                   else Unsupported "alter_check: check dict without a name"
+               | Some (PList l) =>
+                   if existsb (fun v => str_is v "constraint_name") l then Unsupported "alter_check: odd check list"
+                   else Ok (PDict (dict_set a "check" (PDict [("constraint_name", PNone); ("statement", PList l)])))
+               | _ => Raise KeyError end
+      | _ => Unsupported "alter_check form" end
+    else if String.eqb lhs "check_st" then act_check_st args
+    else if String.eqb lhs "check_ex" then act_check_ex args
+    else if String.eqb prod "defcolumn -> defcolumn check_ex" then
+      match args with
+      | [PDict d; PDict item] =>
+          if tr d "check" then Unsupported "defcolumn: a second check"
+          else match act_defcolumn [PDict (adel d "check"); PDict (adel item "check")] with
+               | Ok (PDict r) => match dict_get item "check" with
+                                 | Some c => do r2 <- check_post (dict_set r "check" c); Ok (PDict r2)
+                                 | None => Ok (PDict r) end
+               | other => other
+               end
+      | _ => Unsupported "defcolumn check_ex form" end
+    else if String.eqb prod "expr -> expr COMMA check_ex" then act_expr_check args
+    else if String.eqb lhs "in_statement" then
+      match args with
+      | [name; _; _; vals; _] => Ok (PDict [("in_statement", PDict [("name", name); ("in", vals)])])
+      | _ => Unsupported "in_statement form" end
+    else if String.eqb prod "defcolumn -> defcolumn foreign ref" then
+      match args with [PDict d; PNone; PDict item] => act_defcolumn [PDict d; PDict item] | _ => Unsupported "defcolumn foreign ref form" end
+    else if String.eqb prod "expr -> expr PARTITION BY LP pid RP" || String.eqb prod "expr -> expr PARTITION BY pid"
+            || String.eqb prod "expr -> expr PARTITION BY id LP pid RP" || String.eqb prod "expr -> expr PARTITION BY id pid" then
+      match filter not_par args with
+      | [PDict t; _; _; PList cols] => Ok (PDict (dict_set t "partition_by" (PDict [("columns", PList cols); ("type", PNone)])))
+      | [PDict t; _; _; PStr ty; PList cols] =>
+          if String.eqb (upper ty) "RANGE_BUCKET" then Unsupported "partition by RANGE_BUCKET"
+          else if contains ty "_TRUNC" then
+            match cols with [] => Raise IndexError
+            | _ => let tb := List.last cols PNone in
+                   Ok (PDict (dict_set t "partition_by"
+                                       (PDict ([("columns", PList (removelast cols)); ("type", PStr ty)]
+                                               ++ (if truthy_a tb then [("trunc_by", tb)] else []))%list))) end
+          else Ok (PDict (dict_set t "partition_by" (PDict [("columns", PList cols); ("type", PStr ty)])))
+      | _ => Unsupported "partition by form" end
+    else if String.eqb prod "as_virtual -> AS LP recursive_pid RP" then
+      match args with [_; _; v; _] => Ok (PDict [("generated", PDict [("as", v)])]) | _ => Unsupported "as_virtual form" end
+    else if String.eqb prod "multiple_tag_equals -> tag_equals" then
+      match args with [PList l] => Ok (PList l) | _ => Unsupported "multiple_tag_equals form" end
+    else if String.eqb prod "multiple_tag_equals -> multiple_tag_equals COMMA tag_equals" then
+      match args with [PList a; _; PList b] => Ok (PList (a ++ b)%list) | _ => Unsupported "multiple_tag_equals form" end
+    else if String.eqb lhs "option_with_tag" then
+      match List.last (filter not_par args) PNone with
+      | PList [x] => Ok (PDict [("with_tag", x)])
+      | PList l => Ok (PDict [("with_tag", PList l)])
+      | PStr x => (* len(str) > 1 keeps the string, a one-character string gives its first character: the same string *)
+                  if String.eqb x "" then Raise IndexError else Ok (PDict [("with_tag", PStr x)])
+      | _ => Unsupported "option_with_tag form" end
+    else if String.eqb prod "expr -> expr option_with_tag" then
+      match args with [PDict t; PDict o] => Ok (PDict (dict_update t o)) | _ => Unsupported "expr with tag form" end
+    else if String.eqb prod "defcolumn -> defcolumn option_with_tag" || String.eqb prod "defcolumn -> defcolumn option_order_noorder"
+            || String.eqb prod "defcolumn -> defcolumn option_with_masking_policy" then act_defcolumn args
+    else if String.eqb lhs "option_order_noorder" then Ok (PDict [("increment_order", PBool (str_is (hd PNone args) "ORDER"))])
+    else if String.eqb lhs "option_with_masking_policy" then
+      match rev args with
+      | PStr c :: _ :: PStr b :: _ :: PStr a :: _ => Ok (PDict [("with_masking_policy", PStr (a ++ "." ++ b ++ "." ++ c))])
+      | _ => Unsupported "masking policy form" end
+    else if String.eqb prod "expr -> CREATE TABLESPACE id properties" || String.eqb prod "expr -> CREATE id TABLESPACE id properties"
+            || String.eqb prod "expr -> CREATE id id TABLESPACE id properties" then act_tablespace args
+    else if String.eqb lhs "clone" then match args with [_; v] => Ok (PDict [("clone", PDict [("from", v)])]) | _ => Unsupported "clone form" end
+    else if String.eqb lhs "encrypt" && negb (Nat.eqb (List.length args) 1) then
+      match args with
+      | PDict d :: _ =>
+          match dict_get d "encrypt" with
+          | Some (PDict e) =>
+              let has w := existsb (fun v => str_is v w) args in
+              Ok (PDict (dict_set d "encrypt" (PDict (if has "NO" then dict_set e "salt" (PBool false)
+                                                       else if has "USING" then dict_set e "encryption_algorithm" (List.last args PNone)
+                                                       else if negb (has "SALT") then dict_set e "integrity_algorithm" (List.last args PNone)
+                                                       else e))))
+          | _ => Raise KeyError end
+      | _ => Unsupported "encrypt form" end
+    else if String.eqb prod "defcolumn -> defcolumn encrypt" then act_defcolumn args
+    else if String.eqb lhs "encrypt" && Nat.eqb (List.length args) 1 then
+      Ok (PDict [("encrypt", PDict [("salt", PBool true); ("encryption_algorithm", PStr "'AES192'"); ("integrity_algorithm", PStr "SHA-1")])])
+    else if String.eqb prod "expr -> expr id TERMINATED BY id" || String.eqb prod "expr -> expr id TERMINATED BY STRING" then
+      match args with
+      | [PDict t; PStr w; _; _; PStr v] => Ok (PDict (dict_set t (lower w ++ "_terminated_by") (PStr (check_spec v))))
+      | _ => Unsupported "terminated by form" end
+    else if String.eqb prod "expr -> expr MAP KEYS TERMINATED BY id" || String.eqb prod "expr -> expr MAP KEYS TERMINATED BY STRING" then
+      match args with
+      | PDict t :: _ => match List.last args PNone with PStr v => Ok (PDict (dict_set t "map_keys_terminated_by" (PStr (check_spec v)))) | _ => Unsupported "map keys form" end
+      | _ => Unsupported "map keys form" end
+    else if String.eqb prod "expr -> expr COLLECTION ITEMS TERMINATED BY id" || String.eqb prod "expr -> expr COLLECTION ITEMS TERMINATED BY STRING" then
+      match args with
+      | PDict t :: _ => match List.last args PNone with PStr v => Ok (PDict (dict_set t "collection_items_terminated_by" (PStr (check_spec v)))) | _ => Unsupported "collection items form" end
+      | _ => Unsupported "collection items form" end
+    else if String.eqb prod "expr -> expr id id" || String.eqb prod "expr -> expr id KEY" then
+      match args with
+      | [PDict t; PStr k; v] => if String.eqb k "IN" then Ok (PDict (dict_set t "tablespace" v)) else Ok (PDict (dict_set t k v))
+      | _ => Unsupported "expr id id form" end
+    else if String.eqb prod "expr -> expr id LP id RP" then
+      match args with [PDict t; _; _; v; _] => Ok (PDict (dict_set t "distkey" v)) | _ => Unsupported "distkey form" end
+    else if String.eqb prod "expr -> expr id id LP pid RP" then
+      match args with
+      | [PDict t; ty; _; _; keys; _] => Ok (PDict (dict_set t "sortkey" (PDict [("type", ty); ("keys", keys)])))
+      | _ => Unsupported "sortkey form" end
+    else if String.eqb lhs "cluster_by" then Ok (PDict [("cluster_by", List.last (filter not_par args) PNone)])
+    else if String.eqb prod "expr -> expr cluster_by" then
+      match args with [PDict t; PDict c] => Ok (PDict (dict_update t c)) | _ => Unsupported "expr cluster_by form" end
+    else if String.eqb lhs "by_smthg" then Ok (PDict [("by", List.last (filter not_par args) PNone)])
+    else if String.eqb prod "expr -> expr ID by_smthg" then
+      match args with
+      | [PDict t; PStr w; PDict b] =>
+          match b with (_, v) :: _ => Ok (PDict (dict_set t (lower w ++ "_by") v)) | [] => Raise IndexError end
+      | _ => Unsupported "clustered by form" end
+    else if String.eqb prod "expr -> expr ID ON LP pid RP" then
+      match args with
+      | [PDict t; PStr w; PStr o; _; v; _] => Ok (PDict (dict_set t (lower w ++ "_" ++ lower o) v))
+      | _ => Unsupported "id on form" end
+    else if String.eqb prod "expr -> expr INTO ID ID" then
+      match args with
+      | [PDict t; PStr a; v; PStr b] => Ok (PDict (dict_set t (lower a ++ "_" ++ lower b) v))
+      | _ => Unsupported "into buckets form" end
+    else if String.eqb prod "expr -> expr SKEWED BY LP id RP ON LP pid RP" then
+      match filter not_par args with
+      | [PDict t; _; _; k; _; on] => Ok (PDict (dict_set t "skewed_by" (PDict [("key", k); ("on", on)])))
+      | _ => Unsupported "skewed by form" end
+    else if String.eqb lhs "likke" then match args with [PStr w] => Ok (PStr (lower w)) | _ => Unsupported "likke form" end
+    else if String.eqb prod "expr -> table_name likke id" || String.eqb prod "expr -> table_name LP likke id RP" then
+      match filter not_par args with
+      | [PDict t; PStr key; name] => Ok (PDict (dict_set t key (PDict [("schema", PNone); ("table_name", name)])))
+      | _ => Unsupported "like form" end
+    else if String.eqb prod "expr -> table_name likke id DOT id" || String.eqb prod "expr -> table_name LP likke id DOT id RP" then
+      match filter not_par args with
+      | [PDict t; PStr key; sch; _; name] => Ok (PDict (dict_set t key (PDict [("schema", sch); ("table_name", name)])))
+      | _ => Unsupported "like form" end
+    else if String.eqb lhs "c_property" then
+      match args with
+      | PStr a :: _ => if String.eqb (lower a) "auto" then Ok (PDict [("increment", PBool true)])
+                       else Ok (PDict [("property", PDict [(a, List.last args PNone)])])
+      | _ => Unsupported "c_property form" end
+    else if String.eqb prod "as_virtual -> AS LP id RP" then
+      match args with [_; _; v; _] => Ok (PDict [("generated", PDict [("as", v)])]) | _ => Unsupported "as_virtual form" end
+    else if String.eqb lhs "tag_equals" then
+      match all_strs (filter not_par args) with
+      | Some ss => Ok (PList [PStr (join "" ss)])
+      | None => Unsupported "tag_equals: non-string item" end
+    else if String.eqb lhs "recursive_pid" then
+      (fix go (l : list pyval) (acc : string) : res pyval :=
+         match l with
+         | [] => Ok (PStr acc)
+         | PStr x :: r => go r (acc ++ x)
+         | PList xs :: r => match all_strs xs with Some ss => go r (acc ++ join "," ss) | None => Unsupported "recursive_pid: list item" end
+         | _ => Unsupported "recursive_pid item"
+         end) args ""
+    else if String.eqb prod "column -> column LP id RP c_type" then
+      (* process_type_to_column_data, len(p_list) > 3: the second type is glued to the first ([] arrays) or appended after a blank;
+         then the size *)
+      match args with
+      | [PDict col; _; PStr n; _; PDict ct] =>
+          if dict_has col "index_stmt" || dict_has col "identity" then Unsupported "column: index / identity"
+          else match dict_get col "type", dict_get ct "type" with
+               | Some (PStr t0), Some (PStr t1) =>
+                   if contains (upper t1) "IDENTITY" then Unsupported "column: identity after a size"
+                   else do z <- size_int n;
+                        Ok (PDict (dict_set (dict_set col "type" (PStr (if contains t1 "[]" then t0 ++ t1 else t0 ++ " " ++ t1))) "size" z))
+               | _, _ => Unsupported "column: types" end
+      | _ => Unsupported "column size c_type form" end
     else Unsupported ("action " ++ prod)
   | _ => Unsupported ("action " ++ prod)
   end.
@@ -963,7 +1564,10 @@ Definition action (norm : bool) (prod : string) (args : list pyval) : res pyval 
     else if String.eqb prod "create_table -> CREATE TABLE" then act_create_table args
     else if String.eqb lhs "t_name" then act_t_name args
     else if String.eqb prod "table_name -> create_table t_name" then act_table_name args
-    else if String.eqb prod "c_type -> id" || String.eqb prod "c_type -> id id" then act_c_type args
+    else if String.eqb prod "c_type -> id" || String.eqb prod "c_type -> id id" then
+      match act_c_type args with Unsupported _ => act_c_type_gen args | r => r end
+    else if String.eqb lhs "c_type" then act_c_type_gen args
+    else if String.eqb lhs "tid" then act_tid args
     else if String.eqb prod "column -> id c_type" || String.eqb prod "column -> column LP id RP"
             || String.eqb prod "column -> column LP id COMMA id RP" then act_column args
     else if String.eqb prod "defcolumn -> column" || String.eqb prod "defcolumn -> defcolumn null"
